@@ -70,6 +70,10 @@ CHECKS['C18'] = ('E4', 'model_checking',
     'Line protocol: every byte stream of <=5 (quick) / <=6 (thorough) tokens over {a, e-acute (2 bytes), CR, LF, CRLF} x every composition into reads (all 2^(n-1) for short streams, all with <=2/3 cuts plus byte-at-a-time for longer ones), in client mode and in server mode with two sockets and every interleaving of their segment sequences; after every read the emitted line events must equal a byte-scanning reference applied to the bytes of that socket so far, the tail is held and never crosses sockets. IRC: Message(cmd, *args, prefix) and all 17 command constructors applied to every argument tuple (arity <=4) over {x, empty, space, x y, :x, x:y, CR, a CR b, LF, a LF b, NUL, e-acute}, commands and prefixes from the same alphabet, str and bytes; each call must raise the module Error/ValueError or serialise to exactly one CRLF-terminated line without other CR/LF that parsemsg/from_string parse back to the same prefix, command and arguments; plus the full pipeline constructor -> IRC component -> wire -> second IRC component under every single cut.',
     'Trusted: reference line splitter and the round-trip oracle; whitespace other than space inside non-trailing arguments is outside the alphabet.',
     'bounded-exhaustive input/segmentation enumeration against a reference model and a round-trip oracle', 'DESIGN.md 6/C18')
+CHECKS['C19'] = ('E4', 'model_checking',
+    'The real Node / Client / Server / Protocol / utils stack runs on a scripted transport (the TCP components are replaced by recorders; the harness delivers the recorded bytes to the other side cut exactly as the enumerated segmentation says). Round trips (4 trees, 6 routes): 1-3 events in flight over every route combination, results returned in every order, 14 argument shapes incl. 5 000 / 10 000 / 70 000 B and delimiter or "value": inside strings, 17 receiving handler behaviours, all feedback flag sets, firewalls on both sides, every single cut / byte-at-a-time / fixed chunkings / cuts around the delimiter and every 4096 boundary: the receiving handler runs exactly once, the sender generator gets its value and error flag, rejected events are neither written nor dispatched. Hostile peer under the real run(): truncation at every offset, non-object / partial JSON, wrong types for every key, oversized and deeply nested packets, every metadata key (33, from dir(Event()) and the attributes the dispatcher reads) singly and in pairs, differential against empty meta: the loop keeps running, a sentinel and the honest peer are served. Serialisation round trip of events and values.',
+    'Trusted: scripted transport in place of TCP components; class-level registries of Node/Server are reset per case; cost of oversized packets not judged.',
+    'bounded-exhaustive input/segmentation/fault enumeration through the real node stack, real run() for liveness', 'DESIGN.md 6/C19')
 NOT_YET = {}
 def main():
     props = [json.loads(l) for l in open(os.path.join(HERE, 'properties.jsonl'))]
